@@ -28,7 +28,7 @@ import re
 
 import z3
 
-from .frontend import (Unsupported, ctype, ctype_of_str, int_range, sizeof_ctype, node_begin, SIGNED, UNSIGNED,
+from .frontend import (Unsupported, ctype, ctype_of_str, int_range, sizeof_ctype, node_begin, node_end, SIGNED, UNSIGNED,
                        INTEGRAL)
 from .model import V, Block, State, new_block, fresh, IntS, BoolS, AInt, ABool, psum
 from .spec import Spec, SpecError
@@ -104,12 +104,18 @@ class Exec:
                 w["len(%s)" % name] = b.len
         return w
 
-    def oblige(self, kind, node, goal, st, detail=""):
+    def oblige(self, kind, node, goal, st, detail="", label=None):
         if self.pure:
             return
         if isinstance(goal, bool):
             goal = z3.BoolVal(goal)
+        if label is None:
+            # details that print a symbolic index ("read of a[<z3 term>]") are path dependent: cut at the index
+            label = re.sub(r"[!]\d+", "", detail)
+            if kind in ("bounds", "init", "alive", "double_free", "leak_overwrite"):
+                label = re.sub(r"\[.*", "", label, flags=re.S)
         self.obs.append({"kind": kind, "off": node_begin(node) if node is not None else 0,
+                         "end": node_end(node) if node is not None else 0, "label": label,
                          "line": self.line(node) if node is not None else 0, "detail": detail,
                          "src": self.text(node) if node is not None else "", "hyps": tuple(st.pc), "goal": goal,
                          "watch": self.watch(st), "trail": " > ".join(st.trail[-6:])})
@@ -179,7 +185,7 @@ class Exec:
         for name, t in self.func.params:
             names[name] = self.entry.env[name]
         old = self.spec(self.entry, names=names)
-        sp = self.spec(st, names=names, old=old, result=value)
+        sp = self.spec(st, names=names, old=old, result=value if (value is not None and value.kind == "int") else None)
         for i, c in enumerate(self.c.get("ensures", [])):
             try:
                 g = sp.goal(clause_text(c))
@@ -536,8 +542,10 @@ class Exec:
     def load(self, l, st, node):
         if l[0] == "var":
             v = st.env[l[1]]
+            if v is not None and v.kind == "opq":
+                self.oblige("init_local", node, True, st, "'%s' is written before it is read" % l[1])
             if v is None:
-                self.oblige("init_local", node, False, st, "'%s' is read before it is written" % l[1])
+                self.oblige("init_local", node, False, st, "'%s' is written before it is read" % l[1])
                 t = st.types[l[1]]
                 if t in INTEGRAL:
                     v = V("int", fresh(l[1], IntS), t)
@@ -585,6 +593,9 @@ class Exec:
         if o.status == "freed":
             self.oblige("use_after_free", node, False, st, "block of '%s' was freed" % o.name)
         self.oblige("alive", node, z3.Select(fam["sub_alive"], c), st, "%s[%s] is dereferenced" % (o.name, z3.simplify(c)))
+        # a live row is an object: it came from malloc/realloc, whose size was checked (alloc_size)
+        rl = z3.Select(fam["sub_len"], c)
+        st.pc.append(z3.And(rl >= 0, rl * sizeof_ctype(fam["elem"], self.sizes) <= 2 ** 63 - 1))
         self.oblige("bounds", node, z3.And(idx >= 0, idx < z3.Select(fam["sub_len"], c)), st,
                     "%s of %s[%s][%s]" % ("write" if write else "read", o.name, z3.simplify(c), z3.simplify(idx)))
         row_init = z3.Select(fam["sub_init"], c)
@@ -971,8 +982,8 @@ class Exec:
                     self.oblige("use_after_free", n, False, st, "freed block of '%s' passed to %s" % (b.name, name))
             elif v.kind == "optr":
                 if v.t is not None and p not in c.get("writes_opaque", []):
-                    if st.env.get(v.t) is None:
-                        self.oblige("init_local", n, False, st, "generator state '%s' is used before it is initialised" % v.t)
+                    self.oblige("init_local", n, st.env.get(v.t) is not None, st,
+                                "generator state '%s' is initialised before its address is passed to %s" % (v.t, name))
             elif v.kind == "null":
                 if p not in c.get("nullable", []):
                     raise self.unsupported("null pointer passed for '%s' of %s" % (p, name), n)
